@@ -10,6 +10,7 @@
  *
  * Script (stdin), one op per line; "# case <n>" starts from scratch:
  *   svc shm|sock               create + run the service
+ *   depth <n>                  callbacks nested deeper than n levels run no actions (default 6)
  *   beh <k> <ret> <act>...     append an entry to the FIFO of callback kind k (a accept, c created, m msg_process,
  *                              l closed, d destroyed)
  *   conn <slot>                client slot connects: qb_ipcc_connect_async, server handshake turns,
@@ -125,8 +126,8 @@ static qb_ipcc_connection_t *zombie[MAXC];
 static int nzombie = 0;
 static int cur_slot = -1;
 static int quiet = 0;              /* teardown phase: behaviour tables are not consulted any more */
-static int depth = 0;              /* callback nesting depth (a run-away recursion is cut and reported) */
-#define MAXDEPTH 200
+static int depth = 0;              /* callback nesting level: 1 inside an outermost callback */
+static int maxdepth = 6;           /* callbacks nested deeper than this run no actions (same cut in the model) */
 
 struct act { char op; int tgt; int arg; };   /* tgt -1 = self */
 struct beh { int ret; int nact; struct act a[8]; };
@@ -160,6 +161,7 @@ static struct beh pop_beh(int k)
 	return b;
 }
 
+static int last_accept_ret = 0;
 /* ------------------------------------------------------------------ server callbacks */
 static int32_t cb_accept(qb_ipcs_connection_t *c, uid_t uid, gid_t gid)
 {
@@ -171,6 +173,7 @@ static int32_t cb_accept(qb_ipcs_connection_t *c, uid_t uid, gid_t gid)
 	C[id].p = c; C[id].accept_called = 1; C[id].slot = cur_slot;
 	if (cur_slot >= 0) slot_conn[cur_slot] = id;
 	printf("%s accept %d %d\n", quiet ? "cbq" : "cb", id, b.ret);
+	last_accept_ret = b.ret;
 	run_actions(&b, id);
 	return b.ret;
 }
@@ -289,9 +292,10 @@ static void do_action(struct act a, int self)
 static void run_actions(const struct beh *b, int self)
 {
 	int i;
-	if (depth >= MAXDEPTH) { printf("RUNAWAY-RECURSION\n"); return; }
 	depth++;
-	for (i = 0; i < b->nact; i++) do_action(b->a[i], self);
+	if (depth <= maxdepth) {
+		for (i = 0; i < b->nact; i++) do_action(b->a[i], self);
+	}
 	depth--;
 }
 
@@ -396,7 +400,7 @@ static void reset_case(void)
 	ndent = 0; njobs = 0;
 	memset(bhead, 0, sizeof bhead);
 	memset(btail, 0, sizeof btail);
-	quiet = 0; depth = 0; cur_slot = -1; stale_mod = 0;
+	quiet = 0; depth = 0; maxdepth = 6; cur_slot = -1; stale_mod = 0;
 }
 
 /* tear down; everything the library still owes (closed/destroyed callbacks) is logged as "cbq" lines */
@@ -449,6 +453,7 @@ static int do_conn(int slot)
 {
 	int cfd = -1, guard, before = nconn;
 	int32_t res;
+	last_accept_ret = 0;
 	qb_ipcc_connection_t *c;
 	c = qb_ipcc_connect_async(svc_name, 8192, &cfd);
 	if (!c) return -errno;
@@ -502,7 +507,7 @@ static void on_alarm(int sig)
 int main(void)
 {
 	static char line[1024];
-	setvbuf(stdout, NULL, _IOFBF, 1 << 16);
+	setvbuf(stdout, NULL, _IOLBF, 1 << 16);   /* a sanitizer abort must not lose the log */
 	signal(SIGALRM, on_alarm);
 	signal(SIGPIPE, SIG_IGN);
 	qb_log_init("h_ipclife", LOG_USER, LOG_EMERG);
@@ -531,6 +536,13 @@ int main(void)
 			r = start_service(t && !strcmp(t, "shm"));
 			printf("op svc %s\nr %d\n", is_shm ? "shm" : "sock", r);
 			print_state();
+			continue;
+		}
+		if (!strcmp(op, "depth")) {
+			maxdepth = (int)NUM(&p, 6);
+			if (maxdepth < 0) maxdepth = 0;
+			if (maxdepth > 40) maxdepth = 40;
+			printf("depth %d\n", maxdepth);
 			continue;
 		}
 		if (!strcmp(op, "beh")) {
@@ -565,7 +577,10 @@ int main(void)
 			printf("op conn %ld\n", slot);
 			if (slot < 0 || slot >= MAXS || cli[slot] || svc_destroyed || nconn >= MAXC - 1) { printf("r skip\n"); print_state(); continue; }
 			r = do_conn((int)slot);
-			printf("r %d\n", r);
+			/* the client sees the accept callback's refusal code, or some transport error when the server
+			 * side was torn down inside the created callback */
+			if (r == last_accept_ret) printf("r %d\n", r);
+			else printf("r err\n");
 			print_state();
 			continue;
 		}
@@ -634,7 +649,6 @@ int main(void)
 		printf("op %s\nr unknown-op\n", op);
 	}
 	if (svc) do_end();
-	printf("END\n");
 	fflush(stdout);
 	return 0;
 }
